@@ -164,3 +164,100 @@ Definition view_C13_node (n : node) : list jv :=
   end.
 
 Definition view_C13 (out : node) : jv := JArr (flat_map view_C13_node (subs out)).
+
+(* ---- C15: who creates the vnodes -------------------------------------------------------- *)
+Definition callee_ok (expected : option str) (f : node) : bool :=
+  match expected, f with
+  | Some p, Ident s c _ => str_eqb s p && N.eqb c 0
+  | None, _ => is_helper "createVNode" f
+  | _, _ => false
+  end.
+
+(* the import declaration the transform put in front: `import { x as _x, ... } from "vue"` *)
+Definition generated_vue_import (out : node) : list str :=
+  match out with
+  | NObj (_ :: Field _ (NArr (first :: _)) :: _) =>
+      if sq "ImportDeclaration" (ntype first) then
+        match nfield "specifiers" first with
+        | Some (NArr specs) =>
+            fold_right (fun sp acc =>
+                          match nfield "local" sp, nfield "imported" sp with
+                          | Some (Ident _ c _), Some (Ident imp _ _) =>
+                              if is_gen_ctx c then imp :: acc else acc
+                          | _, _ => acc
+                          end) [] specs
+        | _ => []
+        end
+      else []
+  | _ => []
+  end.
+
+Definition count_str (x : str) (l : list str) : nat := List.length (filter (str_eqb x) l).
+
+Definition oracle_C15 (expected : option str) (out : node) : bool :=
+  let calls := filter is_vnode_call (subs out) in
+  forallb (fun c => match c with Call _ _ f _ _ => callee_ok expected f | _ => true end) calls
+  && match expected with
+     | Some _ => Nat.eqb (count_str (s_ "createVNode") (generated_vue_import out)) 0
+     | None => match calls with
+               | [] => true
+               | _ => Nat.eqb (count_str (s_ "createVNode") (generated_vue_import out)) 1
+               end
+     end.
+
+Definition view_C15 (out : node) : jv :=
+  JArr (map (fun c => match c with Call _ _ f _ _ => enc f | _ => JNull end) (filter is_vnode_call (subs out))
+        ++ [jstrs_of (generated_vue_import out)]).
+
+(* ---- C12: erasing the update hints ------------------------------------------------------- *)
+Definition is_hint_kv (p : node) : bool :=
+  match p with
+  | KV (IdName k) v => str_eqb k [95] && match num_value v with Some 1 | Some 2 => true | _ => false end
+  | _ => false
+  end.
+
+Definition drop_last_hint (props : list node) : list node :=
+  match rev props with
+  | p :: r => if is_hint_kv p then rev r else props
+  | [] => props
+  end.
+
+(* the slot argument of a vnode call: an object, or the conditional built for object slots *)
+Definition strip_slots (c : node) : node :=
+  match c with
+  | Obj props => Obj (drop_last_hint props)
+  | Cond t a (Obj props) => Cond t a (Obj (drop_last_hint props))
+  | _ => c
+  end.
+
+Fixpoint strip_hints (n : node) {struct n} : node :=
+  match n with
+  | Call true c f args ta =>
+      let args' := map strip_hints args in
+      if is_vnode_call n then
+        match args' with
+        | t :: p :: Elem sp ch :: _ => Call true c (strip_hints f) [t; p; Elem sp (strip_slots ch)] ta
+        | _ => Call true c (strip_hints f) args' ta
+        end
+      else Call true c (strip_hints f) args' ta
+  | NArr l => NArr (map strip_hints l)
+  | NObj l => NObj (map strip_hints l)
+  | Field k v => Field k (strip_hints v)
+  | BIdent s c o t => BIdent s c o (strip_hints t)
+  | Arr l => Arr (map strip_hints l)
+  | Elem b e => Elem b (strip_hints e)
+  | Obj l => Obj (map strip_hints l)
+  | KV k v => KV (strip_hints k) (strip_hints v)
+  | Computed e => Computed (strip_hints e)
+  | Spread e => Spread (strip_hints e)
+  | Call sy c f args ta => Call sy c (strip_hints f) (map strip_hints args) (strip_hints ta)
+  | Arrow c ps b a g tp rt => Arrow c (map strip_hints ps) (strip_hints b) a g tp rt
+  | Assign o l r => Assign o (strip_hints l) (strip_hints r)
+  | Paren e => Paren (strip_hints e)
+  | Cond t c a => Cond (strip_hints t) (strip_hints c) (strip_hints a)
+  | Bin o l r => Bin o (strip_hints l) (strip_hints r)
+  | Unary o a => Unary o (strip_hints a)
+  | Member o p => Member (strip_hints o) (strip_hints p)
+  | Block c l => Block c (map strip_hints l)
+  | _ => n
+  end.
